@@ -68,8 +68,8 @@ RULE = ('exhaustive: every string over the 11-letter alphabet {a B 1 space ~ - {
         'random: long strings over a wider alphabet (letters, digits, all Python whitespace, TeX punctuation), special characters, nesting to depth 105; '
         'malformed: token-level delete/duplicate/replace/truncate of the random strings. '
         'distinct = distinct (function, argument); non-trivial = the string contains a brace or a backslash and the call succeeded.')
-EXHAUSTIVE = {'quick': 'all strings of length <= 3 (plus a seeded sample of length 4) over an 11-letter alphabet x all functions x all integer arguments in [-(n+2), n+2]',
-              'thorough': 'all strings of length <= 5 over an 11-letter alphabet x all functions x all integer arguments in [-(n+2), n+2]'}
+EXHAUSTIVE = {'quick': 'all strings of length <= 3 over an 11-letter alphabet x all functions x all integer arguments in [-(n+2), n+2] (plus a seeded 15 % sample of length 4 with boundary integer arguments)',
+              'thorough': 'all strings of length <= 3 over an 11-letter alphabet x all functions x all integer arguments in [-(n+2), n+2]; all strings of length 4 and a seeded 2 % sample of length 5 with boundary integer arguments (memory bound: the harness keeps every case in memory, ~1.2 kB per case)'}
 TRUSTED_BASE = ['modelled (not verified) code: pybtex/bibtex/utils.py lines 96-604 (everything except wrap, which is C19) and the seven builtins of pybtex/bibtex/builtins.py that call it',
                 'regular expressions BIBTEX_SPACE_RE, BRACE_RE, purify_special_char_re and the separators are hand-written matchers, compared with the live re objects through the functions that use them on the exhaustive stream']
 ASSUMPTIONS = ['letter/digit classes and case mapping are modelled on ASCII; non-ASCII letters are outside the claimed domain (DESIGN.md 2.2)']
@@ -349,29 +349,37 @@ def crash_msg(out, s):
     return None
 
 # ----------------------------------------------------------------------------------------
-def cases_for(s, full=True, rng=None):
+def cases_for(s, full=True, light=False):
+    """every modelled function on s.  full: all integer arguments in [-(n+2), n+2]; otherwise a boundary
+    set; light: a smaller boundary set and fewer flag combinations (thorough tier, length >= 4)"""
     n = len(s)
     yield (1, [s]); yield (2, [s]); yield (5, [s]); yield (8, [s]); yield (10, [s])
     yield (7, [s])
     for m in range(3):
         yield (6, [s, m])
-    rng_ = range(-(n + 2), n + 3) if full else [-(n + 1), -1, 0, 1, 2, n, n + 1]
-    for k in rng_:
+    if full:
+        rng_ = range(-(n + 2), n + 3)
+    elif light:
+        rng_ = [-(n + 1), -2, 0, 1, n]
+    else:
+        rng_ = [-(n + 1), -1, 0, 1, 2, n, n + 1]
+    for k in (rng_ if not light else [-1, 0, 1, 2, n - 1, n, n + 1]):
         yield (3, [s, k])
     for st in rng_:
         for ln in rng_:
             yield (4, [s, st, ln])
     for sep in range(4):
-        for strip in (0, 1):
-            for fe in (0, 1):
-                yield (9, [s, sep, strip, fe])
+        for strip, fe in ([(0, 0), (1, 1)] if light else [(0, 0), (0, 1), (1, 0), (1, 1)]):
+            yield (9, [s, sep, strip, fe])
     yield (11, [s, []]); yield (11, [s, ['.']]); yield (11, [s, ['']])
     # through the BST builtins
-    for k in (-1, 0, 1, 2, n):
+    for k in ((1, n) if light else (-1, 0, 1, 2, n)):
         yield (12, [1, s, k, 0, ''])
-    yield (12, [0, s, 2, 1, '']); yield (12, [0, s, -2, 3, '']); yield (12, [0, s, 1, n, ''])
+    yield (12, [0, s, -2, 3, ''])
+    if not light:
+        yield (12, [0, s, 2, 1, '']); yield (12, [0, s, 1, n, ''])
     yield (12, [2, s, 0, 0, '']); yield (12, [3, s, 0, 0, '']); yield (12, [5, s, 0, 0, '']); yield (12, [6, s, 0, 0, ''])
-    for md in ('l', 'U', 't', 'Title', '', 'x'):
+    for md in (('U', 'x') if light else ('l', 'U', 't', 'Title', '', 'x')):
         yield (12, [4, s, 0, 0, md])
 
 WIDE = 'abcXYZ019 \t\n\xa0~-{}\\,:;.!?\'"`^$&%#_@()[]=+*/|<> andAND'
@@ -416,18 +424,22 @@ PINNED = ['', 'abc', 'a{b}c', '{\\', '{\\}', '{\\a', '{a', '}', '}{', 'ab{\\cd',
           'x{y} and {z and w} AND v', ' and ', 'a and ', ' and and and ', 'a,,b,{c,d},', '-a--b-{-c-}-', '~a~~b\\ c\\~d ~']
 
 def gen(tier, rng):
-    maxlen = 4 if tier == 'quick' else 5
+    quick = tier == 'quick'
     for s in PINNED:
-        for fn, a in cases_for(s):
+        for fn, a in cases_for(s, full=len(s) <= 6):
             yield ('pinned', fn, a)
-    for n in range(0, maxlen + 1):
+    for n in range(0, 5 if quick else 6):
         for tup in itertools.product(ALPHA, repeat=n):
             s = ''.join(tup)
-            if tier == 'quick' and n == 4 and rng.random() > 0.2:
-                continue
-            for fn, a in cases_for(s, full=(n <= 3 or tier != 'quick')):
+            if n >= 4:
+                # quick: 15 % of length 4; thorough: every string of length 4, 2 % of length 5
+                if quick and rng.random() > 0.15:
+                    continue
+                if not quick and n == 5 and rng.random() > 0.02:
+                    continue
+            for fn, a in cases_for(s, full=(n <= 3), light=(not quick and n >= 4)):
                 yield ('exhaustive', fn, a)
-    for i in range(700 if tier == 'quick' else 30000):
+    for i in range(700 if quick else 4000):
         s = rand_string(rng)
         for fn, a in cases_for(s, full=False):
             yield ('random', fn, a)
